@@ -2,20 +2,6 @@ import RlModel.Model.Kernel
 /-! Helper lemmas for `Thm/C14.lean`: slot-wise characterisations of the kernels. -/
 namespace RlModel
 
-/-- A slot-wise binary kernel: the recursive shape every binary kernel is shown to have. -/
-def zipSlotM {α β γ} (f : Slot α → Slot β → KOut (Slot γ)) : Arr α → Arr β → KOut (Arr γ)
-  | x :: xs, y :: ys =>
-    match f x y with
-    | .ok c =>
-      match zipSlotM f xs ys with
-      | .ok r => .ok (c :: r)
-      | .err => .err
-      | .panic => .panic
-    | .err => .err
-    | .panic => .panic
-  | [], [] => .ok []
-  | _, _ => .panic
-
 /-- The slot function of `binary_op(a, b, f)`. -/
 def binSlot {α β γ} (f : α → β → KOut γ) (s : Slot α) (t : Slot β) : KOut (Slot γ) :=
   (f s.raw t.raw).map fun c => ⟨s.valid && t.valid, c⟩
